@@ -46,8 +46,10 @@ func (k Keeper) ExecuteVote(ctx context.Context, id uint64) error {
 	if vote.Executed {
 		return errors.New("vote already executed")
 	}
-	// amount of dispute fee to return to fee payers or give to reporter
-	disputeFeeMinusBurn := dispute.SlashAmount.Sub(dispute.BurnAmount)
+	// amount of dispute fee to return to fee payers or give to reporter: the first round's fee minus its five percent;
+	// the fees of further rounds were added to both fee total and burn amount and are burned / given to the voters
+	roundFees := dispute.FeeTotal.Sub(dispute.SlashAmount)
+	disputeFeeMinusBurn := dispute.SlashAmount.Sub(dispute.BurnAmount.Sub(roundFees))
 	// the burnAmount starts at %5 of disputeFee, half of which is burned and the other half is distributed to the voters
 	disputeBurnAmountDec := math.LegacyNewDecFromInt(dispute.BurnAmount)
 	halfBurnAmountDec := disputeBurnAmountDec.Quo(math.LegacyNewDec(2))
